@@ -17,6 +17,7 @@ SHARDS = {'quick': 4, 'thorough': 16, 'quick_timeout': 1200, 'thorough_timeout':
 
 MODES = ('interp', 'largest', 'largest+smallest', 'all')
 C_CM = 2.99792458e10
+TOL = 1.2e-3
 
 
 def curves_in_mode(mode, theta):
@@ -28,18 +29,27 @@ def curves_in_mode(mode, theta):
     return len(uniq)
 
 
-def curve_index(mode, theta, j):
-    """which curve of a fit's block is drawn for band j's aperture (None: that aperture is not shown in this mode)"""
-    uniq = np.unique(theta)
+def shown_apertures(mode, theta):
+    """the distinct apertures the display mode shows (None: the single composite curve)"""
     if mode == 'interp':
-        return 0
+        return [None]
     if mode == 'largest':
-        return 0 if theta[j] == theta.max() else None
+        return [float(theta.max())]
     if mode == 'largest+smallest':
-        if theta[j] == theta.min():
-            return 0
-        return 1 if theta[j] == theta.max() else None
-    return int(np.where(uniq == theta[j])[0][0])
+        return [float(theta.min()), float(theta.max())]
+    return [float(x) for x in np.unique(theta)]
+
+
+def assign_curves(ok):
+    """ok[a, c]: curve c passes through every prediction of the bands measured in shown aperture a.
+    Returns a one-to-one assignment aperture -> curve if one exists (largest+smallest with a single distinct aperture
+    shows the same aperture twice: both curves must then pass)."""
+    from scipy.optimize import linear_sum_assignment
+    ok = np.asarray(ok, bool)
+    r, c = linear_sum_assignment(~ok)
+    if ok[r, c].all() and len(r) == ok.shape[0]:
+        return dict(zip(r.tolist(), c.tolist()))
+    return None
 
 
 def run(ctx):
@@ -51,22 +61,26 @@ def run(ctx):
                 'display mode in {interp, largest, largest+smallest, all}; results passed as object or file (output_convolved). Generators guarantee sensitivity: '
                 'A_V >= 0.5 with |k| >= 0.02 at fitted bands, neighbouring apertures differ by >= 5%, band apertures distinct, so a wrong A_V/scale/aperture moves '
                 'the curve by >= 2%. a case = one plot() call; non-trivial = >=2 selected fits or multi-aperture')
-    ctx.assume('tolerance 5e-4 relative: plot() uses KPC = 3.086e21 cm where 1 kpc = 3.0857e21 cm (measured constant offset 2.089e-4)',
-               'default display mode beyond the largest aperture clamps to 0.999*a_max by design: the accepted band is [interpolant at 0.999 a_max, value at a_max] widened by 5e-4',
+    ctx.assume('tolerance 1.2e-3 relative ("within the rounding of the physical constants used": plot() uses KPC = 3.086e21 cm where 1 kpc = 3.0857e21 cm, measured offset 2.089e-4; c rounded to 3e10 would be 7e-4)',
+               'default display mode beyond the largest aperture clamps to 0.999*a_max by design: the accepted band is [interpolant at 0.999 a_max, value at a_max] widened by 1.2e-3', 'which curve of a fit\'s block belongs to which aperture is not part of the statement: a one-to-one assignment of curves to the shown apertures must exist',
                'stored predictions (model_fluxes) are themselves checked against truth by C04')
     ctx.require_events('plot:call', 'curve-point:checked', 'curve-point:truth-checked')
     ctx.require_regimes('mode:interp', 'mode:largest', 'mode:largest+smallest', 'mode:all', 'input:object', 'input:file', 'multi-aperture', 'single-aperture',
-                        'cube:asc', 'cube:desc', 'selected>=2', 'beyond-table', 'filters:unsorted', 'two-sources-share-a-model')
+                        'cube:asc', 'cube:desc', 'selected>=2', 'beyond-table', 'filters:unsorted', 'two-sources-share-a-model', 'filters-share-an-aperture', 'filters>=12-distinct-apertures')
     n_pk = 5 if ctx.quick else 100
     for ip in range(n_pk):
         n_m = int(rng.integers(3, 8))
         multi = ip % 3 != 2
         n_ap = int(rng.integers(3, 6)) if multi else 1
         n_w = 14
+        many = multi and ip % 5 == 4          # a dozen or more filters, each with its own aperture
+        if many:
+            n_ap, n_w = 5, 18
+            ctx.regime('filters>=12-distinct-apertures')
         names = gen.model_names(rng, n_m)
         truth = convcheck.make_truth(rng, n_m, n_ap, n_w, names=names, wav_range=(0.3, 300.0))
         if multi:   # aperture table spanning well over a decade, so that distinct band apertures fit inside it
-            truth.apertures = float(gen.loguniform(rng, 10.0, 300.0)) * np.cumprod(np.concatenate([[1.0], rng.uniform(2.5, 8.0, n_ap - 1)]))
+            truth.apertures = float(gen.loguniform(rng, 10.0, 300.0)) * np.cumprod(np.concatenate([[1.0], rng.uniform(4.0 if many else 2.5, 8.0, n_ap - 1)]))
         if multi:
             # neighbouring apertures differ by >= 5% in flux
             inc = rng.uniform(0.08, 0.6, (n_m, n_ap, n_w))
@@ -80,7 +94,7 @@ def run(ctx):
         pkg.build_v2(md, truth, aperture_dependent=aperture_dependent, logd_step=0.1, descending_wav=desc)
         ctx.regime('cube:desc' if desc else 'cube:asc')
         ctx.regime('multi-aperture' if multi else 'single-aperture')
-        nb = int(rng.integers(3, 5))
+        nb = int(rng.integers(3, 5)) if not many else int(rng.integers(12, 15))
         bi = rng.choice(np.arange(1, n_w - 1), nb, replace=False)      # filters in arbitrary (not wavelength-sorted) order
         if ip % 4 == 3:
             bi = np.sort(bi)
@@ -103,8 +117,11 @@ def run(ctx):
                 if a_at[i] < a_at[i - 1] * 1.15:
                     a_at[i] = a_at[i - 1] * 1.3
             if rng.random() < 0.6:
-                a_at[-1] = truth.apertures[-1] * float(rng.uniform(0.7, 1.5))
+                a_at[-1] = max(truth.apertures[-1] * float(rng.uniform(0.7, 1.5)), a_at[-2] * 1.3)
             rng.shuffle(a_at)
+            if ip % 4 == 1:       # two filters measured in the same aperture
+                a_at[1] = a_at[0]
+                ctx.regime('filters-share-an-aperture')
             theta = a_at / (dmin * 1000.0)
         else:
             dr = np.array([1.0, 2.0])
@@ -181,54 +198,70 @@ def run(ctx):
                       ctx.violation('plot:curve-count:' + mode, 'number of curves is not selected fits x apertures shown by the display mode',
                                     dict(wit, curves=len(segs), expected=nsel * ncur))
                       continue
+                  shown = shown_apertures(mode, theta)
                   for i in range(nsel):
                       block = segs[(nsel - 1 - i) * ncur:(nsel - i) * ncur]      # best fit drawn last
                       av_i, sc_i = float(rec.av[i]), float(rec.sc[i])
                       mi = truth.index(str(rec.model_name[i]))
+                      # per band: the accepted interval around the stored prediction and around the value recomputed from truth
+                      bands = []
                       for j in range(nb):
-                          ci = curve_index(mode, theta, j)
-                          if ci is None:
-                              continue
-                          seg = block[ci]
-                          node = np.where(np.abs(seg[:, 0] / wav[j] - 1) < 1e-9)[0]
-                          if node.size != 1:
-                              ctx.violation('plot:node-missing', 'a curve has no node at a fitted wavelength', dict(wit, band=j))
-                              continue
-                          got = float(seg[node[0], 1])
                           nu = C_CM / (wav[j] * 1e-4)
                           stored = 10.0 ** float(rec.model_fluxes[i, j]) * 1e-26 * nu
-                          # band beyond the table in the default display mode: clamped to 0.999 a_max by design
                           lo = hi = stored
                           beyond = False
+                          ratio = 1.0
                           if multi:
                               a_req = theta[j] * 10.0 ** sc_i * 1000.0
                               if a_req > truth.apertures[-1] and mode == 'interp':
+                                  # band beyond the table in the default display mode: clamped to 0.999 a_max by design
                                   beyond = True
                                   ctx.regime('beyond-table')
                                   v999 = float(O.interp_aperture(truth.apertures, truth.flux[mi, :, bi[j]], 0.999 * truth.apertures[-1]))
                                   vmax = float(truth.flux[mi, -1, bi[j]])
                                   ratio = v999 / vmax
                                   lo, hi = min(stored * ratio, stored), max(stored * ratio, stored)
-                          ctx.event('curve-point:checked')
-                          if not (lo * (1 - 5e-4) <= got <= hi * (1 + 5e-4)):
-                              ctx.violation('plot:curve-misses-stored-prediction:' + mode,
-                                            'the curve drawn for a filter\'s aperture does not pass through the predicted flux stored with the fit',
-                                            dict(wit, fit=i, band=j, got=got, stored=stored, ratio=got / stored, av=av_i, sc=sc_i, beyond_table=beyond,
-                                                 model=str(rec.model_name[i])))
-                              continue
-                          # independent second opinion from truth
-                          if multi:
-                              a_req = theta[j] * 10.0 ** sc_i * 1000.0
                               base = float(O.interp_aperture(truth.apertures, truth.flux[mi, :, bi[j]], min(a_req, truth.apertures[-1])))
                               tv = base / (10.0 ** sc_i) ** 2
                           else:
                               tv = float(truth.flux[mi, 0, bi[j]]) * 10.0 ** (-2 * sc_i)
                           tv = tv * 10.0 ** (av_i * k[j]) * 1e-26 * nu
                           tlo, thi = (tv, tv) if not beyond else (min(tv * ratio, tv), max(tv * ratio, tv))
-                          ctx.event('curve-point:truth-checked')
-                          if not (tlo * (1 - 5e-4) <= got <= thi * (1 + 5e-4)):
-                              ctx.violation('plot:curve-misses-truth:' + mode, 'the curve is not the named model scaled to 10^scale kpc and reddened by the reported A_V',
-                                            dict(wit, fit=i, band=j, got=got, truth=tv, ratio=got / tv))
+                          bands.append(dict(stored=stored, lo=lo, hi=hi, tv=tv, tlo=tlo, thi=thi, beyond=beyond))
+                      # value of every curve of the block at every fitted wavelength
+                      vals = np.full((len(block), nb), np.nan)
+                      node_missing = False
+                      for c_, seg in enumerate(block):
+                          for j in range(nb):
+                              node = np.where(np.abs(seg[:, 0] / wav[j] - 1) < 1e-9)[0]
+                              if node.size != 1:
+                                  node_missing = True
+                              else:
+                                  vals[c_, j] = float(seg[node[0], 1])
+                      if node_missing:
+                          ctx.violation('plot:node-missing', 'a curve has no node at a fitted wavelength', dict(wit, fit=i))
+                          continue
+                      for kind, klo, khi, key, what in (
+                              ('stored', 'lo', 'hi', 'plot:curve-misses-stored-prediction:', 'the curve drawn for a filter\'s aperture does not pass through the predicted flux stored with the fit'),
+                              ('tv', 'tlo', 'thi', 'plot:curve-misses-truth:', 'the curve is not the named model scaled to 10^scale kpc and reddened by the reported A_V')):
+                          okm = np.ones((len(shown), len(block)), bool)
+                          for a_, ap_ in enumerate(shown):
+                              for j in range(nb):
+                                  if ap_ is not None and theta[j] != ap_:
+                                      continue
+                                  ctx.event('curve-point:checked' if kind == 'stored' else 'curve-point:truth-checked')
+                                  okm[a_] &= (vals[:, j] >= bands[j][klo] * (1 - TOL)) & (vals[:, j] <= bands[j][khi] * (1 + TOL))
+                          if assign_curves(okm) is None:
+                              # witness: the first shown aperture no curve serves, with the curve that comes closest
+                              a_bad = int(np.argmin(okm.sum(axis=1)))
+                              js = [j for j in range(nb) if shown[a_bad] is None or theta[j] == shown[a_bad]]
+                              dev = np.abs(vals[:, js] / np.array([bands[j][kind] for j in js])[None, :] - 1).max(axis=1)
+                              cbest = int(np.argmin(dev))
+                              ctx.violation(key + mode, what,
+                                            dict(wit, fit=i, aperture=shown[a_bad], bands=js, closest_curve=cbest, got=vals[cbest, js],
+                                                 expected=[bands[j][kind] for j in js], ratio=vals[cbest, js] / np.array([bands[j][kind] for j in js]),
+                                                 av=av_i, sc=sc_i, beyond_table=[bands[j]['beyond'] for j in js], model=str(rec.model_name[i])))
+                              break
         ctx.rmdir(d)
 
 
